@@ -3,23 +3,23 @@ from analysis.facts import callee, callee_short
 from analysis.cfg import cfg
 from analysis.guards import resolve_cond
 from analysis.defuse import Tracer
-from analysis.wbf import WriteBeforeFail, err_exits
+from analysis.wbf import WriteBeforeFail, err_exits, path_evading, precede_on_every_path
 from rules.c09 import EXIT_TABLE
 
 
 def _flag_known(prog, fn, w, tr):
     """validate_external_bindings sits under `if !has_validated_externals`: the join after it dominates w."""
-    g = cfg(fn)
-    for b in g.dominators().get(w, ()):
-        tt = fn.blocks[b]['term']
-        if tt and tt['k'] == 'switch':
+    # "dominates" = lies on every path to w (path_evading: in a function that absorbed a helper, on every path that
+    # agrees with the Ok/Err of the helper's result)
+    for b, tt in fn.terms():
+        if tt['k'] == 'switch' and b != w and path_evading(prog, fn, w, [b], tr) is None:
             c = resolve_cond(prog, fn, tt['d'], tr)
             if c is not None and c.desc[0] == 'field' and c.desc[1] == 'Story::has_validated_externals':
                 # the not-yet-validated side must call validate_external_bindings before reaching w
                 vb = [bb for bb, t in fn.calls() if callee_short(t) == 'Story::validate_external_bindings']
                 for v, tb in tt['ts'] + [(None, tt['else'])]:
                     truth = c.truth_of_value(v) if v is not None else (not c.truth_of_value(tt['ts'][0][0]))
-                    if truth is False and w in g.reachable([tb], avoid=vb):
+                    if truth is False and path_evading(prog, fn, w, vb, tr, via=tb) is not None:
                         return False
                 return True
     return False
@@ -138,14 +138,14 @@ def run(chk, prog):
                and prog.fns[e['callee']].short in ('StoryState::reset_output',
                                                    'StoryState::start_function_evaluation_from_game')]
     chk.decide(RE, chk.key(RE, 'bindings-validated-first'), bool(veb) and all(
-        any(g.dominates(v, w) or _flag_known(prog, ef, w, tr) for v in veb) for w in first_w),
+        precede_on_every_path(prog, ef, veb, w, tr) or _flag_known(prog, ef, w, tr) for w in first_w),
         'the external bindings are validated (or known to be) before the first change',
         'evaluate_function no longer validates the external bindings before pushing its frame: with an unbound '
         'EXTERNAL the nested continue fails afterwards and the frame stays on the main story\'s call stack',
         ef.loc(first_w[0]) if first_w else ef.loc(0))
     # ... and a story with an undelivered error is refused
     he = [bb for bb, t in ef.calls() if callee_short(t) == 'StoryState::has_error']
-    chk.decide(RE, chk.key(RE, 'pending-error-refused'), bool(he) and all(any(g.dominates(h, w) for h in he)
+    chk.decide(RE, chk.key(RE, 'pending-error-refused'), bool(he) and all(precede_on_every_path(prog, ef, he, w, tr)
                                                                            for w in first_w),
                'has_error() is tested before the first change',
                'evaluate_function does not test has_error() before it starts: with an undelivered error the function '
@@ -192,9 +192,8 @@ def run(chk, prog):
                 chk.fail(RB, key, '%s can fail with %s after the story was already changed' % (f.short, r['exit']),
                          f.loc(r['exit_block']))
             elif ent[0] == 'prevalidated':
-                gg = cfg(f)
                 vb = [bb for bb, t in f.calls() if callee_short(t) in ent[2]]
-                okv = bool(vb) and all(any(gg.dominates(v, b) for v in vb) for b, _ in r['writes'])
+                okv = bool(vb) and all(precede_on_every_path(prog, f, vb, b, tr) for b, _ in r['writes'])
                 chk.decide(RB, key, okv, 'pre-validated (re-validated): ' + ent[1],
                            '%s no longer validates (%s) before its first write' % (f.short, ent[2]), f.loc(r['exit_block']))
             else:
